@@ -36,6 +36,10 @@ func value(tag string, d int) MalType {
 		return ints[vrt.Concrete(vrt.Choice(tag+"/i", len(ints)))]
 	case 3:
 		s := lib.RuneStr(tag+"/s", vrt.Param("strlen", 2), strAscii, strMulti)
+		if vrt.Param("jsonish", 0) == 1 {
+			// a string shaped like a JSON object (printed in raw form by AddPreamble) around the symbolic content
+			return "{\"" + s + []string{"\"}", "}"}[vrt.Concrete(vrt.Choice(tag+"/close", 2))]
+		}
 		vrt.Assume(!(len(s) >= 2 && s[0] == 0xCA && s[1] == 0x9E)) // that would be a keyword
 		return s
 	case 4:
@@ -164,3 +168,6 @@ func hasRaw(v MalType) bool {
 
 // Harness_strings: the same check focused on string values (longer strings, fewer templates).
 func Harness_strings() { Harness_transport() }
+
+// Harness_jsonvalues: the same check on string values shaped like JSON objects (parameter jsonish=1).
+func Harness_jsonvalues() { Harness_transport() }
